@@ -7,7 +7,7 @@ From stdpp Require Import gmap list.
 From RecordUpdate Require Import RecordSet.
 Import RecordSetNotations.
 From Aldrin Require Import gen.BrokerConsts Broker.Model Broker.Run Broker.Wp Broker.Inv Broker.InvProofsBase
-  Broker.InvProofsAlive Broker.InvProofsTerm Broker.FuelProofs Broker.FuelProofsFrame.
+  Broker.InvProofsAlive Broker.InvProofsTerm Broker.FuelProofs Broker.FuelProofsFrame Broker.SerialAlloc.
 From Coq Require Import Lia.
 Local Open Scope N_scope.
 
@@ -163,14 +163,13 @@ Section CallFrame.
 
   (* ---------------------------------------------------------------- the state predicate *)
   (* the call record; the called service with its owner [o_owner o] (FuelProofsFrame.sf); no other
-     service lists [b]; no pending map other than the caller's mentions [b]; [b] is below the
-     private-serial counter *)
+     service lists [b]; no pending map other than the caller's mentions [b]; [b] is a u32 *)
   Definition cf' (Cn : gmap conn cstate) (O : gmap uuid obj) (S : gmap (uuid * uuid) svc)
       (K : gmap N call) (nxt : N) : Prop :=
     K !! b = Some cl ∧ sf' kb o ck ock inf O S ∧
     (∀ k' sv', S !! k' = Some sv' → b ∈ s_calls sv' → k' = kb) ∧
     (∀ c' cs', Cn !! c' = Some cs' → c' ≠ caller → no_entry cs') ∧
-    b < 4294967296 + nxt.
+    b < 4294967296.
   Definition cf (s : state) : Prop := cf' (conns s) (objs s) (svcs s) (calls s) (next s).
 
   Lemma cf_svc_update Cn O S K nxt k0 v v' :
@@ -201,8 +200,8 @@ Section CallFrame.
   Proof. intros (H1 & H2 & H3 & H4 & H5) ?. split; [by rewrite lookup_delete_ne|done]. Qed.
   Lemma cf_call_insert Cn O S K nxt b' x : cf' Cn O S K nxt → b' ≠ b → cf' Cn O S (<[b' := x]> K) nxt.
   Proof. intros (H1 & H2 & H3 & H4 & H5) ?. split; [by rewrite lookup_insert_ne|done]. Qed.
-  Lemma cf_next Cn O S K nxt nxt' : cf' Cn O S K nxt → nxt ≤ nxt' → cf' Cn O S K nxt'.
-  Proof. intros (H1 & H2 & H3 & H4 & H5) ?. split; [done|]. split; [done|]. split; [done|]. split; [done|lia]. Qed.
+  Lemma cf_next Cn O S K nxt nxt' : cf' Cn O S K nxt → cf' Cn O S K nxt'.
+  Proof. intros H. exact H. Qed.
   Lemma cf_conn_delete Cn O S K nxt c' : cf' Cn O S K nxt → cf' (delete c' Cn) O S K nxt.
   Proof.
     intros (H1 & H2 & H3 & H4 & H5). split; [done|]. split; [done|]. split; [done|]. split; [|done].
@@ -363,12 +362,11 @@ Section CallFrame.
     unfold cf in *. cbn. apply cf_svc_new; [exact H|assumption|cbn; congruence|cbn; set_solver].
   Qed.
 
-  Lemma pick_serial_cf s bs n n0 : cf s → pick_serial s bs = Some (n, n0) → n ≠ b ∧ next s ≤ n0.
+  (* the allocator returns a vacant serial (SerialAlloc.sm_probe_vacant needs no bound on next) *)
+  Lemma pick_serial_cf s bs n n0 : cf s → pick_serial s bs = Some (n, n0) → n ≠ b.
   Proof.
-    intros (H1 & _ & _ & _ & H5). unfold pick_serial. destruct bs as [b0|].
-    - destruct (bool_decide_reflect (is_Some (calls s !! b0))) as [|Hn]; [done|]. intros [= <- <-].
-      split; [|lia]. intros ->. apply Hn. eauto.
-    - intros [= <- <-]. split; lia.
+    intros (H1 & _) Hp ->. apply pick_serial_Some in Hp as [Hp _]. apply sm_probe_vacant in Hp.
+    apply sm_occ_false in Hp. congruence.
   Qed.
 
   Lemma no_entry_insert cs serial n callee : no_entry cs → n ≠ b → no_entry (cs <| cs_calls ::= <[serial := (n, callee)]> |>).
@@ -380,14 +378,13 @@ Section CallFrame.
     cf (ms m) → res (SP cf) (SP cf) (call_impl m c serial sc fn ver v bserial).
   Proof.
     intros H. unfold call_impl. wp cf_leaf idtac; prep;
-      match goal with Hp : pick_serial _ _ = Some _ |- _ => destruct (pick_serial_cf _ _ _ _ H Hp) as [Hnb Hnx] end.
-    - unfold cf in *. cbn. by eapply cf_next.
+      match goal with Hp : pick_serial _ _ = Some _ |- _ => pose proof (pick_serial_cf _ _ _ _ H Hp) as Hnb end.
     - unfold cf in *. cbn in *. eapply cf_conn_update; [|eassumption|intros; by apply no_entry_insert].
       eapply cf_svc_update; [|eassumption|reflexivity..|cbn; set_solver].
-      apply cf_call_insert; [|done]. by eapply cf_next.
+      apply cf_call_insert; [|done]. eapply cf_next; exact H.
     - unfold cf in *. cbn in *. eapply cf_conn_update; [|eassumption|intros; by apply no_entry_insert].
       eapply cf_svc_update; [|eassumption|reflexivity..|cbn; set_solver].
-      apply cf_call_insert; [|done]. by eapply cf_next.
+      apply cf_call_insert; [|done]. eapply cf_next; exact H.
   Qed.
 
   Ltac reply_pre :=
